@@ -48,7 +48,7 @@ theorem nondestructive_only_allocates {h h' : Heap} {op : Op} {res : Ref}
     cases hx : chainOf h x with
     | error e => simp [hx, bind, Except.bind] at hr
     | ok as => simp [hx, bind, Except.bind] at hr; exact ⟨[], by simp [hr.1]⟩
-  | member v x =>
+  | member p key x =>
     unfold run at hr
     cases hx : chainOf h x with
     | error e => simp [hx, bind, Except.bind] at hr
@@ -94,7 +94,7 @@ theorem nondestructive_only_allocates {h h' : Heap} {op : Op} {res : Ref}
     | error e => simp [hx, bind, Except.bind] at hr
     | ok as =>
       simp [hx, bind, Except.bind] at hr
-      obtain ⟨ext, he⟩ := removeCells_grows p h as
+      obtain ⟨ext, he⟩ := removeCells_grows h (maskOf p (carsOf h as)) as
       exact ⟨ext, by rw [← he, hr]⟩
   | mapcar f x =>
     unfold run at hr
@@ -104,13 +104,24 @@ theorem nondestructive_only_allocates {h h' : Heap} {op : Op} {res : Ref}
       simp [hx, bind, Except.bind] at hr
       obtain ⟨ext, he⟩ := allocList_grows h (vMapcar f (carsOf h as)) .nil
       exact ⟨ext, by rw [← he, hr]⟩
+  | mapcar2 x y =>
+    unfold run at hr
+    cases hx : chainOf h x with
+    | error e => simp [hx, bind, Except.bind] at hr
+    | ok as =>
+      cases hy : chainOf h y with
+      | error e => simp [hx, hy, bind, Except.bind] at hr
+      | ok bs =>
+        simp [hx, hy, bind, Except.bind] at hr
+        obtain ⟨ext, he⟩ := allocList_grows h (vMapcar2 (carsOf h as) (carsOf h bs)) .nil
+        exact ⟨ext, by rw [← he, hr]⟩
   | rplaca x v => simp [Op.destructive] at hnd
   | setNth n x v => simp [Op.destructive] at hnd
   | rplacd x y => simp [Op.destructive] at hnd
   | nconc x y => simp [Op.destructive] at hnd
   | add x vs => simp [Op.destructive] at hnd
   | nreverse x => simp [Op.destructive] at hnd
-  | sort x => simp [Op.destructive] at hnd
+  | sort desc key x => simp [Op.destructive] at hnd
   | delete p x => simp [Op.destructive] at hnd
 
 /-- **nondestructive_frame.** An operation that is not documented as destructive leaves every
@@ -161,13 +172,14 @@ theorem destructive_writes_within_footprint {h h' : Heap} {op : Op} {res : Ref}
   | append x y => simp [Op.destructive] at hd
   | nthcdr n x => simp [Op.destructive] at hd
   | last n x => simp [Op.destructive] at hd
-  | member v x => simp [Op.destructive] at hd
+  | member p key x => simp [Op.destructive] at hd
   | butlast n x => simp [Op.destructive] at hd
   | subseq s e x => simp [Op.destructive] at hd
   | copyList x => simp [Op.destructive] at hd
   | reverse x => simp [Op.destructive] at hd
   | remove p x => simp [Op.destructive] at hd
   | mapcar f x => simp [Op.destructive] at hd
+  | mapcar2 x y => simp [Op.destructive] at hd
   | rplaca x v =>
     unfold run at hr
     cases hx : chainOf h x with
@@ -258,7 +270,7 @@ theorem destructive_writes_within_footprint {h h' : Heap} {op : Op} {res : Ref}
       have hfp : a ∉ as := by simpa [footprint, Op.destructive, Op.listArgs, hx] using hnf
       simp [hx, bind, Except.bind] at hr
       rw [← hr.1]; exact writeCars_notin _ _ _ hfp
-  | sort x =>
+  | sort desc key x =>
     unfold run at hr
     cases hx : chainOf h x with
     | error e => simp [hx, bind, Except.bind] at hr
@@ -276,7 +288,7 @@ theorem destructive_writes_within_footprint {h h' : Heap} {op : Op} {res : Ref}
       rw [← hr.1]
       apply linkCells_notin
       intro hm
-      exact hfp (keptCells_subset hm)
+      exact hfp (applyMask_subset hm)
 
 /-- **destructive_footprint.** `nconc nreverse sort delete rplaca rplacd (setf car/nth/elt) add`
     change only cells reachable from their list arguments: a list none of whose cells is reachable
@@ -418,18 +430,19 @@ theorem extending_writes_only_nil_cdrs {h h' : Heap} {op : Op} {res : Ref}
     | append x y => simp [Op.destructive] at hd
     | nthcdr n x => simp [Op.destructive] at hd
     | last n x => simp [Op.destructive] at hd
-    | member v x => simp [Op.destructive] at hd
+    | member p key x => simp [Op.destructive] at hd
     | butlast n x => simp [Op.destructive] at hd
     | subseq s e x => simp [Op.destructive] at hd
     | copyList x => simp [Op.destructive] at hd
     | reverse x => simp [Op.destructive] at hd
     | remove p x => simp [Op.destructive] at hd
     | mapcar f x => simp [Op.destructive] at hd
+    | mapcar2 x y => simp [Op.destructive] at hd
     | rplaca x v => simp [Op.extending] at hx
     | setNth n x v => simp [Op.extending] at hx
     | rplacd x y => simp [Op.extending] at hx
     | nreverse x => simp [Op.extending] at hx
-    | sort x => simp [Op.extending] at hx
+    | sort desc key x => simp [Op.extending] at hx
     | delete p x => simp [Op.extending] at hx
 
 /-- **extend_no_overwrite.** Extending a list by `cons push list* append add nconc` never overwrites
@@ -525,7 +538,7 @@ theorem nondestructive_refines_value {h h' : Heap} {op : Op} {res : Ref} {xs ys 
       refine ⟨stdFuel h, vLast k xs, rfl, ?_⟩
       rw [← hr.1, ← hr.2, contents_of_chain (chain_drop _ hch), carsOf_drop _ (chain_lt hch), hxs]
       simp [vLast, carsOf_length (chain_lt hch)]
-  | member v x =>
+  | member p key x =>
     unfold run at hr
     cases hcx : chainOf h x with
     | error e => simp [hcx, bind, Except.bind] at hr
@@ -533,7 +546,7 @@ theorem nondestructive_refines_value {h h' : Heap} {op : Op} {res : Ref} {xs ys 
       simp [hcx, bind, Except.bind] at hr
       have hxs := args_val hcx (hx x rfl)
       have hch := chainOf_ok.mp hcx
-      refine ⟨stdFuel h, vMember v xs, rfl, ?_⟩
+      refine ⟨stdFuel h, vMember p key xs, rfl, ?_⟩
       rw [← hr.1, ← hr.2, contents_of_chain (chain_drop _ hch), carsOf_drop _ (chain_lt hch), hxs]
       simp [vMember, drop_length_takeWhile]
   | butlast k x =>
@@ -589,7 +602,7 @@ theorem nondestructive_refines_value {h h' : Heap} {op : Op} {res : Ref} {xs ys 
       have hch := chainOf_ok.mp hcx
       refine ⟨stdFuel h + as.length, vRemove p xs, rfl, ?_⟩
       have hch' : chain h (stdFuel h) (refOf as) = some as := by rw [refOf_chain hch]; exact hch
-      have := removeCells_contents p hch'
+      have := removeCells_contents (maskOf p (carsOf h as)) hch'
       rw [hr] at this; rw [hxs]; exact this
   | mapcar f x =>
     unfold run at hr
@@ -601,13 +614,27 @@ theorem nondestructive_refines_value {h h' : Heap} {op : Op} {res : Ref} {xs ys 
       refine ⟨(vMapcar f (carsOf h as)).length, vMapcar f xs, rfl, ?_⟩
       have := allocList_contents_nil h (vMapcar f (carsOf h as))
       rw [hr] at this; rw [hxs]; exact this
+  | mapcar2 x y =>
+    unfold run at hr
+    cases hcx : chainOf h x with
+    | error e => simp [hcx, bind, Except.bind] at hr
+    | ok as =>
+      cases hcy : chainOf h y with
+      | error e => simp [hcx, hcy, bind, Except.bind] at hr
+      | ok bs =>
+        simp [hcx, hcy, bind, Except.bind] at hr
+        have hxs := args_val hcx (hx x rfl)
+        have hys := args_val hcy (hy y rfl)
+        refine ⟨(vMapcar2 (carsOf h as) (carsOf h bs)).length, vMapcar2 xs ys, rfl, ?_⟩
+        have := allocList_contents_nil h (vMapcar2 (carsOf h as) (carsOf h bs))
+        rw [hr] at this; rw [hxs, hys]; exact this
   | rplaca x v => simp [Op.destructive] at hnd
   | setNth n x v => simp [Op.destructive] at hnd
   | rplacd x y => simp [Op.destructive] at hnd
   | nconc x y => simp [Op.destructive] at hnd
   | add x vs => simp [Op.destructive] at hnd
   | nreverse x => simp [Op.destructive] at hnd
-  | sort x => simp [Op.destructive] at hnd
+  | sort desc key x => simp [Op.destructive] at hnd
   | delete p x => simp [Op.destructive] at hnd
 
 
@@ -781,7 +808,7 @@ theorem destructive_refines_value {h h' : Heap} {op : Op} {res : Ref} {xs ys : L
       rw [chain_writeCars, hch]
       simp only [Option.map_some]
       rw [carsOf_writeCars (chain_nodup hch) hlt (by simp [carsOf_length hlt]), hxs]
-  | sort x =>
+  | sort desc key x =>
     unfold run at hr
     cases hcx : chainOf h x with
     | error e => simp [hcx, bind, Except.bind] at hr
@@ -790,7 +817,7 @@ theorem destructive_refines_value {h h' : Heap} {op : Op} {res : Ref} {xs ys : L
       have hch := chainOf_ok.mp hcx
       simp [hcx, bind, Except.bind] at hr
       have hlt := chain_lt hch
-      refine ⟨stdFuel h, vSort xs, rfl, ?_⟩
+      refine ⟨stdFuel h, vSort desc key xs, rfl, ?_⟩
       rw [← hr.1, ← hr.2]
       unfold contents
       rw [chain_writeCars, hch]
@@ -805,12 +832,12 @@ theorem destructive_refines_value {h h' : Heap} {op : Op} {res : Ref} {xs ys : L
       have hch := chainOf_ok.mp hcx
       simp [hcx, bind, Except.bind] at hr
       have hlt := chain_lt hch
-      refine ⟨(keptCells p h as).length, vRemove p xs, rfl, ?_⟩
+      refine ⟨(applyMask (maskOf p (carsOf h as)) as).length, vRemove p xs, rfl, ?_⟩
       rw [← hr.1, ← hr.2]
       unfold contents
-      rw [chain_linkCells (keptCells_nodup p h (chain_nodup hch)) (fun a ha => hlt a (keptCells_subset ha))]
+      rw [chain_linkCells (applyMask_nodup (chain_nodup hch)) (fun a ha => hlt a (applyMask_subset ha))]
       simp only [Option.map_some, carsOf_linkCells]
-      rw [carsOf_keptCells p hlt, hxs]
+      rw [carsOf_applyMask _ hlt, hxs]; rfl
   | lit vs => simp [Op.destructive] at hd
   | alias x => simp [Op.destructive] at hd
   | cons v x => simp [Op.destructive] at hd
@@ -818,13 +845,14 @@ theorem destructive_refines_value {h h' : Heap} {op : Op} {res : Ref} {xs ys : L
   | append x y => simp [Op.destructive] at hd
   | nthcdr n x => simp [Op.destructive] at hd
   | last n x => simp [Op.destructive] at hd
-  | member v x => simp [Op.destructive] at hd
+  | member p key x => simp [Op.destructive] at hd
   | butlast n x => simp [Op.destructive] at hd
   | subseq s e x => simp [Op.destructive] at hd
   | copyList x => simp [Op.destructive] at hd
   | reverse x => simp [Op.destructive] at hd
   | remove p x => simp [Op.destructive] at hd
   | mapcar f x => simp [Op.destructive] at hd
+  | mapcar2 x y => simp [Op.destructive] at hd
 
 
 /-- **(A) computes (B)**, all operations. -/
@@ -894,13 +922,21 @@ theorem fresh_result_independent {h h' : Heap} {op : Op} {res : Ref}
     cases hcx : chainOf h x with
     | error e => simp [hcx, bind, Except.bind] at hr
     | ok as => simp [hcx, bind, Except.bind] at hr; exact key _ hr
+  | mapcar2 x y =>
+    unfold run at hr
+    cases hcx : chainOf h x with
+    | error e => simp [hcx, bind, Except.bind] at hr
+    | ok as =>
+      cases hcy : chainOf h y with
+      | error e => simp [hcx, hcy, bind, Except.bind] at hr
+      | ok bs => simp [hcx, hcy, bind, Except.bind] at hr; exact key _ hr
   | alias x => simp [Op.freshResult] at hf
   | cons v x => simp [Op.freshResult] at hf
   | listStar v w x => simp [Op.freshResult] at hf
   | append x y => simp [Op.freshResult] at hf
   | nthcdr n x => simp [Op.freshResult] at hf
   | last n x => simp [Op.freshResult] at hf
-  | member v x => simp [Op.freshResult] at hf
+  | member p key x => simp [Op.freshResult] at hf
   | remove p x => simp [Op.freshResult] at hf
   | rplaca x v => simp [Op.freshResult] at hf
   | setNth n x v => simp [Op.freshResult] at hf
@@ -908,7 +944,7 @@ theorem fresh_result_independent {h h' : Heap} {op : Op} {res : Ref}
   | nconc x y => simp [Op.freshResult] at hf
   | add x vs => simp [Op.freshResult] at hf
   | nreverse x => simp [Op.freshResult] at hf
-  | sort x => simp [Op.freshResult] at hf
+  | sort desc key x => simp [Op.freshResult] at hf
   | delete p x => simp [Op.freshResult] at hf
 
 /-- `cdr rest nthcdr pop last member (setq d a)` allocate nothing and return a tail of their
@@ -933,7 +969,7 @@ theorem tail_result_shares {h h' : Heap} {op : Op} {res : Ref} {x : Ref}
     unfold run at hr
     simp [hco, bind, Except.bind] at hr
     exact ⟨hr.1.symm, _, by rw [← hr.2]; exact chain_drop _ hc⟩
-  | member v y =>
+  | member p key y =>
     simp [Op.listArgs] at hx; subst hx
     unfold run at hr
     simp [hco, bind, Except.bind] at hr
@@ -948,13 +984,14 @@ theorem tail_result_shares {h h' : Heap} {op : Op} {res : Ref} {x : Ref}
   | reverse x => simp [Op.tailResult] at ht
   | remove p x => simp [Op.tailResult] at ht
   | mapcar f x => simp [Op.tailResult] at ht
+  | mapcar2 x y => simp [Op.tailResult] at ht
   | rplaca x v => simp [Op.tailResult] at ht
   | setNth n x v => simp [Op.tailResult] at ht
   | rplacd x y => simp [Op.tailResult] at ht
   | nconc x y => simp [Op.tailResult] at ht
   | add x vs => simp [Op.tailResult] at ht
   | nreverse x => simp [Op.tailResult] at ht
-  | sort x => simp [Op.tailResult] at ht
+  | sort desc key x => simp [Op.tailResult] at ht
   | delete p x => simp [Op.tailResult] at ht
 
 /-- `cons push list* append`: the result is fresh cells followed by exactly the cells of the last
@@ -1008,20 +1045,21 @@ theorem ext_result_shares_only_last_arg {h h' : Heap} {op : Op} {res y : Ref} {n
   | alias x => simp [Op.extending] at hx
   | nthcdr n x => simp [Op.extending] at hx
   | last n x => simp [Op.extending] at hx
-  | member v x => simp [Op.extending] at hx
+  | member p key x => simp [Op.extending] at hx
   | butlast n x => simp [Op.extending] at hx
   | subseq s e x => simp [Op.extending] at hx
   | copyList x => simp [Op.extending] at hx
   | reverse x => simp [Op.extending] at hx
   | remove p x => simp [Op.extending] at hx
   | mapcar f x => simp [Op.extending] at hx
+  | mapcar2 x y => simp [Op.extending] at hx
   | rplaca x v => simp [Op.extending] at hx
   | setNth n x v => simp [Op.extending] at hx
   | rplacd x y => simp [Op.extending] at hx
   | nconc x y => simp [Op.destructive] at hnd
   | add x vs => simp [Op.destructive] at hnd
   | nreverse x => simp [Op.extending] at hx
-  | sort x => simp [Op.extending] at hx
+  | sort desc key x => simp [Op.extending] at hx
   | delete p x => simp [Op.extending] at hx
 
 /-! ## value laws of (B) -/
@@ -1040,8 +1078,8 @@ theorem reverse_involutive (x : Ref) (xs : List Val) :
 
 theorem nreverse_eq_reverse (x : Ref) (xs : List Val) : valueOf (.nreverse x) xs [] = valueOf (.reverse x) xs [] := rfl
 
-theorem delete_eq_remove (p : Pred) (x : Ref) (xs : List Val) :
-    valueOf (.delete p x) xs [] = valueOf (.remove p x) xs [] := rfl
+theorem delete_eq_remove (sp : RemSpec) (x : Ref) (xs : List Val) :
+    valueOf (.delete sp x) xs [] = valueOf (.remove sp x) xs [] := rfl
 
 theorem nconc_eq_append (x y : Ref) (xs ys : List Val) : valueOf (.nconc x y) xs ys = valueOf (.append x y) xs ys := rfl
 
@@ -1079,49 +1117,130 @@ theorem subseq_whole (xs : List Val) : vSubseq 0 none xs = .ok xs := by
 theorem subseq_to_end (s : Nat) (xs : List Val) (h : s ≤ xs.length) : vSubseq s none xs = .ok (vNthcdr s xs) := by
   simp [vSubseq, h, vNthcdr, List.take_of_length_le]
 
-/-- `member` returns a tail of its argument that starts with the item, or nil when the item is absent -/
-theorem member_suffix (v : Val) (xs : List Val) : vMember v xs <:+ xs := by
+/-- `member`/`member-if` (with `:key`, `:test`) return a tail of the argument whose first element
+    satisfies the test, or nil when no element does -/
+theorem member_suffix (p : Pred) (key : Option Fn) (xs : List Val) : vMember p key xs <:+ xs := by
   unfold vMember; exact List.dropWhile_suffix _
 
-theorem member_head (v : Val) (xs : List Val) : (vMember v xs).head? = none ∨ (vMember v xs).head? = some v := by
+theorem member_head (p : Pred) (key : Option Fn) (xs : List Val) :
+    ∀ v ∈ (vMember p key xs).head?, p.test (keyApp key v) = true := by
   unfold vMember
   induction xs with
   | nil => simp
   | cons x xs ih =>
-    by_cases hx : x = v
-    · subst hx; simp [List.dropWhile_cons]
+    by_cases hx : p.test (keyApp key x) = true
+    · simp [List.dropWhile_cons, hx]
     · simpa [List.dropWhile_cons, hx] using ih
 
-theorem member_nil_iff (v : Val) (xs : List Val) : vMember v xs = [] ↔ v ∉ xs := by
+theorem member_nil_iff (p : Pred) (key : Option Fn) (xs : List Val) :
+    vMember p key xs = [] ↔ ∀ x ∈ xs, p.test (keyApp key x) = false := by
   unfold vMember
   induction xs with
   | nil => simp
   | cons x xs ih =>
-    by_cases hx : x = v
-    · subst hx; simp [List.dropWhile_cons]
-    · have : ¬ v = x := fun e => hx e.symm
-      simp [List.dropWhile_cons, hx, this, ih]
+    by_cases hx : p.test (keyApp key x) = true
+    · simp [List.dropWhile_cons, hx]
+    · simp [List.dropWhile_cons, hx, ih]
 
-/-- `remove`/`delete` keep exactly the elements that do not satisfy the test, in order -/
-theorem remove_mem (p : Pred) (xs : List Val) (v : Val) : v ∈ vRemove p xs ↔ v ∈ xs ∧ p.test v = false := by
-  simp [vRemove, List.mem_filter]
+/-- `remove`/`delete` (all keyword variants) return a sub-list of the argument, in order -/
+theorem remove_sublist (sp : RemSpec) (xs : List Val) : (vRemove sp xs).Sublist xs := by
+  unfold vRemove; exact applyMask_sublist _ _
 
-theorem remove_sublist (p : Pred) (xs : List Val) : (vRemove p xs).Sublist xs := by
-  unfold vRemove; exact List.filter_sublist
+theorem candidates_length (sp : RemSpec) (stop : Nat) : ∀ (i : Nat) (xs : List Val), (candidates sp stop i xs).length = xs.length := by
+  intro i xs
+  induction xs generalizing i with
+  | nil => rfl
+  | cons x xs ih => simp [candidates, ih]
 
-theorem remove_idempotent (p : Pred) (xs : List Val) : vRemove p (vRemove p xs) = vRemove p xs := by
-  simp [vRemove, List.filter_filter]
+theorem limitFirst_length : ∀ (n : Nat) (bs : List Bool), (limitFirst n bs).length = bs.length := by
+  intro n bs
+  induction bs generalizing n with
+  | nil => simp [limitFirst]
+  | cons b bs ih =>
+    cases b with
+    | false => simp [limitFirst, ih]
+    | true => cases n <;> simp [limitFirst, ih]
+
+/-- `:count n` removes at most `n` elements -/
+theorem limitFirst_count : ∀ (n : Nat) (bs : List Bool), (limitFirst n bs).count true ≤ n := by
+  intro n bs
+  induction bs generalizing n with
+  | nil => simp [limitFirst]
+  | cons b bs ih =>
+    cases b with
+    | false => simpa [limitFirst] using ih n
+    | true =>
+      cases n with
+      | zero => simpa [limitFirst] using ih 0
+      | succ k => simp [limitFirst]; exact ih k
+
+/-- `:count` only ever spares candidates: a position marked after limiting was a candidate -/
+theorem limitFirst_sub : ∀ (n : Nat) (bs : List Bool) (i : Nat), (limitFirst n bs)[i]? = some true → bs[i]? = some true := by
+  intro n bs
+  induction bs generalizing n with
+  | nil => intro i h; simp [limitFirst] at h
+  | cons b bs ih =>
+    intro i h
+    cases b with
+    | false =>
+      cases i with
+      | zero => simp [limitFirst] at h
+      | succ j => simp [limitFirst] at h ⊢; exact ih n j h
+    | true =>
+      cases i with
+      | zero => simp
+      | succ j =>
+        cases n with
+        | zero => simp [limitFirst] at h ⊢; exact ih 0 j h
+        | succ k => simp [limitFirst] at h ⊢; exact ih k j h
+
+/-- a candidate lies inside `[:start, :end)` and its key satisfies the test -/
+theorem candidates_sound (sp : RemSpec) (stop : Nat) : ∀ (i : Nat) (xs : List Val) (j : Nat),
+    (candidates sp stop i xs)[j]? = some true →
+      sp.start ≤ i + j ∧ i + j < stop ∧ ∃ x, xs[j]? = some x ∧ sp.pred.test (keyApp sp.key x) = true := by
+  intro i xs
+  induction xs generalizing i with
+  | nil => intro j h; simp [candidates] at h
+  | cons x xs ih =>
+    intro j h
+    cases j with
+    | zero =>
+      simp [candidates] at h
+      exact ⟨by omega, by omega, x, by simp, h.2⟩
+    | succ k =>
+      simp [candidates] at h
+      obtain ⟨h1, h2, y, hy, hp⟩ := ih (i + 1) k h
+      exact ⟨by omega, by omega, y, by simpa using hy, hp⟩
+
+/-- without keywords `remove item list` / `remove-if pred list` is a plain filter -/
+theorem remove_default_eq_filter (p : Pred) (xs : List Val) :
+    vRemove { pred := p } xs = xs.filter (fun x => !p.test x) := by
+  have key : ∀ (i : Nat) (ys : List Val), ys.length + i ≤ xs.length + i →
+      applyMask (candidates { pred := p } (ys.length + i) i ys) ys = ys.filter (fun x => !p.test x) := by
+    intro i ys
+    induction ys generalizing i with
+    | nil => intro _; rfl
+    | cons y ys ih =>
+      intro _
+      have e : (y :: ys).length + i = ys.length + (i + 1) := by simp; omega
+      rw [e]
+      have := ih (i + 1) (by omega)
+      by_cases hp : p.test y = true
+      · simp [candidates, applyMask, keyApp, hp, this, show i < ys.length + (i + 1) by omega]
+      · simp [candidates, applyMask, keyApp, hp, this]
+  have := key 0 xs (by omega)
+  simpa [vRemove, maskOf] using this
 
 theorem mapcar_length (f : Fn) (xs : List Val) : (vMapcar f xs).length = xs.length := by simp [vMapcar]
 
 /-- `sort` returns an ordered permutation of its argument -/
-theorem sort_sorted_perm (xs : List Val) : (vSort xs).Pairwise (· ≤ ·) ∧ (vSort xs).Perm xs := by
+theorem sort_sorted_perm (desc : Bool) (key : Option Fn) (xs : List Val) :
+    (vSort desc key xs).Pairwise (fun a b => rank desc key a ≤ rank desc key b) ∧ (vSort desc key xs).Perm xs := by
   induction xs with
   | nil => simp [vSort]
   | cons x xs ih =>
-    have e : vSort (x :: xs) = insertSorted x (vSort xs) := rfl
+    have e : vSort desc key (x :: xs) = insertSorted (rank desc key) x (vSort desc key xs) := rfl
     rw [e]
-    exact ⟨insertSorted_sorted x ih.1, (insertSorted_perm x _).trans (List.Perm.cons x ih.2)⟩
-
+    exact ⟨insertSorted_sorted _ x ih.1, (insertSorted_perm _ x _).trans (List.Perm.cons x ih.2)⟩
 
 end SlipVerif.ListHeap
